@@ -257,6 +257,9 @@ def check(prop, tier, seed):
                 violations.append((key, path, '', verdict.get('detail', '')))
             elif candidate:
                 undecided.append('%s: solver %s; the candidate counterexample found by finite instantiation passes on the real code' % (r.name, r.status))
+            elif r.ob.meta.get('conservative'):
+                undecided.append('%s: the ownership analysis cannot show this site writes fresh objects only (conservative analysis), and the native probe found no effect: %s' % (
+                    r.name, str(verdict.get('detail', ''))[:160]))
             elif in_lock:
                 violations.append((key, path, ' no-failing-input-found', verdict.get('detail', '')))
             else:
